@@ -11,11 +11,30 @@
  *   (blocking descriptor, events == POLLIN) returns at once.
  * H_REALIO=2: as 1, but the peer sends *frames* (4 byte big-endian length + payload): one read()
  *   returns bytes of at most one frame and a zero-timeout poll() sees input iff a frame has arrived,
- *   so that segmentation is as deterministic as in the scripted mode (also underneath OpenSSL). */
+ *   so that segmentation is as deterministic as in the scripted mode (also underneath OpenSSL).
+ * Queue side (since round 3, all additions; readers that do not know the tags ignore them):
+ *   D <key=value ...>   snapshot of everything smtp_data()/write_received()/queue_envelope() read, taken
+ *                       when the "354" reply is written (strings in hex, "-" = empty, "~" = NULL)
+ *   Q <call> ...        result of every pipe2/pipe, fork, waitpid and of every write/writev/close on a
+ *                       descriptor that came out of pipe2/pipe (the syscall oracle trace):
+ *                         Q pipe <r> <errno> <fd0> <fd1> | Q fork <r: 1 parent, -1> <errno>
+ *                         Q waitpid <options> <r: 0, 1 (= the pid), -1> <errno> <status or -1 (NULL)>
+ *                         Q write|writev <fd> <len> <r> <errno> | Q close <fd> <r> <errno>
+ * file "qfault" (optional): forced results, one per line: "<call> <n> <action> [arg]" = the n-th
+ *   (0-based, counted per call kind over the whole session; write and writev share "write") call:
+ *     pipe n err <errno> | fork n err <errno> | waitpid n err <errno> (a blocking wait is performed, its answer replaced)
+ *     waitpid n delay <ms> (sleep, then the real call)
+ *     write n err <errno> (nothing written) | write n short <k> (only k bytes written and reported)
+ *     close n err <errno> (the descriptor is really closed, -1 reported) */
 #define _GNU_SOURCE
 #include <errno.h>
 #include <fcntl.h>
 #include <poll.h>
+#include <dlfcn.h>
+#include <sys/wait.h>
+#include <arpa/inet.h>
+#include <netinet/in.h>
+#include <time.h>
 #include <stdarg.h>
 #include <stdio.h>
 #include <stdlib.h>
@@ -27,6 +46,9 @@
 #include <qsmtpd/qsmtpd.h>
 #include <qsmtpd/commands.h>
 #include <qsmtpd/userfilters.h>
+#include <qsmtpd/queue.h>
+#include <qsmtpd/qsdata.h>
+#include <version.h>
 
 extern int qsmtpd_main(int argc, char **argv);
 extern unsigned long comstate;
@@ -195,11 +217,174 @@ int poll(struct pollfd *fds, nfds_t nfds, int timeout)
 	fds[0].revents = POLLIN;
 	return 1;
 }
+/* ---- queue side: syscall oracle trace, forced results, snapshot at 354 ---- */
+#define MAXFD 4096
+static unsigned char ispipefd[MAXFD];
+static int inchild;
+struct qfault { char call[12]; long nth; char act[12]; long arg; };
+static struct qfault qfs[128]; static int nqf;
+static long cnt_pipe, cnt_fork, cnt_waitpid, cnt_write, cnt_close;
+static long fired_total;
+
+static struct qfault *qf_match(const char *call, long n)
+{
+	for (int i = 0; i < nqf; i++) if (qfs[i].nth == n && !strcmp(qfs[i].call, call)) { fired_total++; return &qfs[i]; }
+	return NULL;
+}
+static void qline(const char *fmt, ...)
+{
+	if (!tr || inchild) return;
+	va_list ap; va_start(ap, fmt); fputs("Q ", tr); vfprintf(tr, fmt, ap); va_end(ap); fputc('\n', tr); fflush(tr);
+}
+static void hexfield(const char *key, const char *s, size_t n, int isnull)
+{
+	fprintf(tr, " %s=", key);
+	if (isnull) { fputc('~', tr); return; }
+	if (!n) { fputc('-', tr); return; }
+	for (size_t i = 0; i < n; i++) fprintf(tr, "%02x", (unsigned char)s[i]);
+}
+static void cstrfield(const char *key, const char *s) { hexfield(key, s, s ? strlen(s) : 0, s == NULL); }
+static void data_snapshot(void)
+{
+	if (!tr) return;
+	char cip[INET6_ADDRSTRLEN] = "";
+	if (IN6_IS_ADDR_V4MAPPED(&xmitstat.sremoteip)) inet_ntop(AF_INET, &(xmitstat.sremoteip.s6_addr32[3]), cip, sizeof(cip));
+	else inet_ntop(AF_INET6, &xmitstat.sremoteip, cip, sizeof(cip));
+	fprintf(tr, "D esmtp=%u ssl=%d spf=%u check2822=%u datatype=%u relayclient=%d authhide=%d submission=%d maxbytes=%zu goodrcpt=%u fdd=%d fdh=%d",
+		xmitstat.esmtp, xmitstat.ssl != NULL, xmitstat.spf, xmitstat.check2822, xmitstat.datatype, relayclient, authhide, submission_mode,
+		maxbytes, goodrcpt, queuefd_data, queuefd_hdr);
+	hexfield("helostr", xmitstat.helostr.s, xmitstat.helostr.len, 0);
+	hexfield("remotehost", xmitstat.remotehost.s, xmitstat.remotehost.len, 0);
+	cstrfield("remoteip", xmitstat.remoteip);
+	cstrfield("clientip", cip);
+	cstrfield("remoteport", xmitstat.remoteport);
+	cstrfield("remoteinfo", xmitstat.remoteinfo);
+	hexfield("authname", xmitstat.authname.s, xmitstat.authname.len, 0);
+	cstrfield("tlsclient", xmitstat.tlsclient);
+	hexfield("heloname", heloname.s, heloname.len, 0);
+	hexfield("liphost", liphost.s, liphost.len, 0);
+	hexfield("msgidhost", msgidhost.s, msgidhost.len, 0);
+	hexfield("mailfrom", xmitstat.mailfrom.s, xmitstat.mailfrom.len, 0);
+	cstrfield("spfexp", xmitstat.spfexp);
+	cstrfield("spfmech", xmitstat.spfmechanism);
+	cstrfield("version", VERSIONSTRING);
+	fputs(" rcpts=", tr);
+	struct recip *l; int any = 0;
+	TAILQ_FOREACH(l, &head, entries) {
+		if (any) fputc(',', tr);
+		any = 1;
+		for (size_t i = 0; i < l->to.len; i++) fprintf(tr, "%02x", (unsigned char)l->to.s[i]);
+		fprintf(tr, ":%d", l->ok);
+	}
+	if (!any) fputc('-', tr);
+	fputc('\n', tr); fflush(tr);
+}
+
 ssize_t write(int fd, const void *buf, size_t n)
 {
-	if (fd != 1 || realio) return syscall(SYS_write, fd, buf, n);
-	hexout("W", buf, n);
-	return (ssize_t)n;
+	if (fd == 1 && !realio) {
+		if (n >= 4 && !memcmp(buf, "354 ", 4)) data_snapshot();
+		hexout("W", buf, n);
+		return (ssize_t)n;
+	}
+	if (fd < 0 || fd >= MAXFD || ispipefd[fd] != 1 || inchild) return syscall(SYS_write, fd, buf, n);
+	struct qfault *f = qf_match("write", cnt_write++);
+	ssize_t r; int e = 0;
+	if (f && !strcmp(f->act, "err")) { r = -1; e = (int)f->arg; }
+	else {
+		size_t k = n;
+		if (f && !strcmp(f->act, "short") && (size_t)f->arg < n) k = (size_t)f->arg;
+		r = syscall(SYS_write, fd, buf, k); e = errno;
+	}
+	qline("write %d %zu %zd %d", fd, n, r, r < 0 ? e : 0);
+	errno = e;
+	return r;
+}
+ssize_t writev(int fd, const struct iovec *iov, int cnt)
+{
+	if (fd < 0 || fd >= MAXFD || ispipefd[fd] != 1 || inchild) return syscall(SYS_writev, fd, iov, cnt);
+	size_t n = 0;
+	for (int i = 0; i < cnt; i++) n += iov[i].iov_len;
+	struct qfault *f = qf_match("write", cnt_write++);
+	ssize_t r; int e = 0;
+	if (f && !strcmp(f->act, "err")) { r = -1; e = (int)f->arg; }
+	else if (f && !strcmp(f->act, "short") && (size_t)f->arg < n) {
+		/* write only the first k bytes of the vector */
+		char *tmp = malloc(n ? n : 1); size_t o = 0;
+		for (int i = 0; i < cnt; i++) { memcpy(tmp + o, iov[i].iov_base, iov[i].iov_len); o += iov[i].iov_len; }
+		r = syscall(SYS_write, fd, tmp, (size_t)f->arg); e = errno;
+		free(tmp);
+	} else { r = syscall(SYS_writev, fd, iov, cnt); e = errno; }
+	qline("writev %d %zu %zd %d", fd, n, r, r < 0 ? e : 0);
+	errno = e;
+	return r;
+}
+int close(int fd)
+{
+	if (fd < 0 || fd >= MAXFD || !ispipefd[fd] || inchild) return (int)syscall(SYS_close, fd);
+	if (ispipefd[fd] == 2) {
+		/* a pipe descriptor that was closed before: a second close() of it is part of the trace
+		 * (EBADF) unless the number has been handed out again in the meantime */
+		int r2 = (int)syscall(SYS_close, fd); int e2 = errno;
+		if (r2 == 0) { ispipefd[fd] = 0; return 0; }
+		qline("close %d %d %d", fd, r2, e2);
+		errno = e2;
+		return r2;
+	}
+	struct qfault *f = qf_match("close", cnt_close++);
+	int r = (int)syscall(SYS_close, fd); int e = errno;
+	ispipefd[fd] = 2;
+	if (f && !strcmp(f->act, "err")) { r = -1; e = (int)f->arg; }
+	qline("close %d %d %d", fd, r, r < 0 ? e : 0);
+	errno = e;
+	return r;
+}
+static int do_pipe(int p[2], int flags)
+{
+	struct qfault *f = qf_match("pipe", cnt_pipe++);
+	int r, e = 0;
+	if (f && !strcmp(f->act, "err")) { r = -1; e = (int)f->arg; p[0] = p[1] = -1; }
+	else { r = (int)syscall(SYS_pipe2, p, flags); e = errno; }
+	if (r == 0) { if (p[0] < MAXFD) ispipefd[p[0]] = 1; if (p[1] < MAXFD) ispipefd[p[1]] = 1; }
+	qline("pipe %d %d %d %d", r, r < 0 ? e : 0, r == 0 ? p[0] : -1, r == 0 ? p[1] : -1);
+	errno = e;
+	return r;
+}
+int pipe2(int p[2], int flags) { return do_pipe(p, flags); }
+int pipe(int p[2]) { return do_pipe(p, 0); }
+pid_t fork(void)
+{
+	static pid_t (*real)(void);
+	if (!real) real = (pid_t (*)(void))dlsym(RTLD_NEXT, "fork");
+	struct qfault *f = qf_match("fork", cnt_fork++);
+	pid_t r; int e = 0;
+	if (f && !strcmp(f->act, "err")) { r = -1; e = (int)f->arg; }
+	else { r = real(); e = errno; }
+	if (r == 0) { inchild = 1; return 0; }
+	qline("fork %d %d", r > 0 ? 1 : -1, r < 0 ? e : 0);
+	errno = e;
+	return r;
+}
+pid_t waitpid(pid_t pid, int *status, int options)
+{
+	static pid_t (*real)(pid_t, int *, int);
+	if (!real) real = (pid_t (*)(pid_t, int *, int))dlsym(RTLD_NEXT, "waitpid");
+	struct qfault *f = qf_match("waitpid", cnt_waitpid++);
+	pid_t r; int e = 0; int st = -1;
+	if (f && !strcmp(f->act, "err")) {
+		/* the child is really waited for (so that children of later transactions do not overlap
+		 * with it), only the answer is replaced */
+		if (!(options & WNOHANG)) (void)real(pid, &st, options);
+		st = -1; r = -1; e = (int)f->arg;
+	} else {
+		if (f && !strcmp(f->act, "delay")) { struct timespec ts = { f->arg / 1000, (f->arg % 1000) * 1000000L }; nanosleep(&ts, NULL); }
+		r = real(pid, &st, options); e = errno;
+		if (r <= 0) st = -1;
+		if (status && r > 0) *status = st;
+	}
+	qline("waitpid %d %d %d %d", options, r > 0 ? 1 : (int)r, r < 0 ? e : 0, status ? st : -1);
+	errno = e;
+	return r;
 }
 unsigned int sleep(unsigned int s) { (void)s; nsleep++; return 0; }
 void openlog(const char *i, int o, int f) { (void)i; (void)o; (void)f; }
@@ -252,6 +437,16 @@ int main(int argc, char **argv)
 			seglen[nitems++] = n;
 		}
 		fclose(s);
+	}
+	FILE *qf = fopen("qfault", "r");
+	if (qf) {
+		char line[256];
+		while (fgets(line, sizeof(line), qf) && nqf < 128) {
+			struct qfault *f = &qfs[nqf];
+			f->arg = 0;
+			if (sscanf(line, "%11s %ld %11s %ld", f->call, &f->nth, f->act, &f->arg) >= 3) nqf++;
+		}
+		fclose(qf);
 	}
 	tr = fopen("transcript", "w");
 	on_exit(on_exit_cb, NULL);
